@@ -1,4 +1,5 @@
 import GB.C13.Proofs
+import GB.Generated.Facts
 import GB.C09.Props
 /-
   C13 — streamed responses are framed one message per record in the transport's format.
@@ -40,6 +41,25 @@ theorem C13_sse_fails_on_raw_newline :
 
 example : splitLines (streamBody false [[123, 125], [], [34, 92, 110, 34]]) = [[123, 125], [], [34, 92, 110, 34]] := by decide
 example : parseSSE (streamBody true [[123, 125], [], [100, 97, 116, 97, 58]]) = [[123, 125], [], [100, 97, 116, 97, 58]] := by decide
+
+/-- Nothing but records: after the last message the body ends exactly at a record boundary — no
+    unterminated line on plain HTTP, no partial line or undispatched data for SSE. (The driver demands
+    the same of every observed stream body; seeded C13-m5 appended an unframed status document.) -/
+theorem C13_stream_no_residue (bs : List Bytes) (h : ∀ b ∈ bs, LF ∉ b ∧ CR ∉ b ∧ b.head? ≠ some SP) :
+    lineRest (streamBody false bs) = [] ∧ sseClean (streamBody true bs) = true := by
+  constructor
+  · unfold lineRest
+    exact lineRest_stream bs (fun b hb x hx e => (h b hb).1 (e ▸ hx))
+  · unfold sseClean
+    have := sse_stream bs [] (fun b hb => ⟨fun x hx => ⟨fun e => (h b hb).1 (e ▸ hx), fun e => (h b hb).2.1 (e ▸ hx)⟩, (h b hb).2.2⟩)
+    have h0 : sseInit = cleanSt [] := rfl
+    rw [h0, this]
+    simp [cleanSt]
+
+/-- …which a status document written after the records violates (the C13-m5 shape `{"a"}\n{}` / `data:x\n\n{}`). -/
+theorem C13_stream_residue_witness :
+    lineRest ([123, 125, 10] ++ [123, 125]) = [123, 125] ∧ sseClean ([100, 97, 116, 97, 58, 120, 10, 10] ++ [123, 125]) = false := by
+  decide
 
 /-! ## SSE negotiation, refusals, Content-Type -/
 
@@ -345,3 +365,53 @@ theorem C13_json_lines_lossless_encoded (ops : GB.C09.FloatOps) (hf : ∀ b bits
 
 example : splitLines (streamBody false ([GB.C09.J.arr [.str [10], .num [49]], .obj []].map GB.C09.renderCompact))
     = [[91, 34, 92, 110, 34, 44, 49, 93], [123, 125]] := by decide
+
+/-! ## The root constructor: one transcoder configuration for every entry point -/
+
+/-- Facts tie (regenerated from bridge.go and webbridge/*.go on every run): inside `NewWebBridge` each of
+    the four `webbridge.New…Bridge` constructors is called once, and every Opts value sets `Transcoder`,
+    `Forwarder` and `Logger` wherever its type has the field — all to the same expression; `transcoder` is
+    `transcoding.NewStandardTranscoder(options.transcoderOpts)`. A dropped or diverging field breaks this theorem. -/
+theorem C13_facts_wiring :
+    wiringOK GB.Generated.webBridgeWiring GB.Generated.webBridgeTranscoderInit = true := by decide
+
+/-- …and read as plumbing, the source gives every bridge exactly what the model says. -/
+theorem C13_facts_wiring_is_model (opts : List BridgeOpt) (b : Bridge) :
+    wiredFrom GB.Generated.webBridgeWiring opts b = wiredTranscoder opts b := by
+  cases b <;> simp [wiredFrom, wiredTranscoder] <;> decide
+
+/-- The SAME transcoder configuration governs HTTP, SSE and transcoded WebSocket: for every option list,
+    with the wiring the source has now, the transcoder serving a request is `NewStandardTranscoder` of
+    the folded options whatever the entry point, so the marshalers `Bind` chooses (and every refusal)
+    depend only on (options, negotiation input) — never on the entry point. -/
+theorem C13_entry_points_share_transcoder (opts : List BridgeOpt) (e₁ e₂ : Entry) (r : BindReq) :
+    entryTranscoder (wiredFrom GB.Generated.webBridgeWiring opts) e₁ = newStandardTranscoder (bridgeOptions opts) ∧
+    entryBind (wiredFrom GB.Generated.webBridgeWiring opts) e₁ r =
+      entryBind (wiredFrom GB.Generated.webBridgeWiring opts) e₂ r := by
+  have h : ∀ e, entryTranscoder (wiredFrom GB.Generated.webBridgeWiring opts) e = newStandardTranscoder (bridgeOptions opts) := by
+    intro e
+    unfold entryTranscoder
+    rw [C13_facts_wiring_is_model]
+    cases e <;> rfl
+  exact ⟨h e₁, by unfold entryBind; rw [h e₁, h e₂]⟩
+
+/-- `WithMarshalers` / `WithDefaultMarshaler` reach the transcoder: last one wins, unset fields default to JSON. -/
+theorem C13_options_reach_transcoder (opts : List BridgeOpt) (ms : List Marshaler) (m : Marshaler) :
+    newStandardTranscoder (bridgeOptions (opts ++ [.withMarshalers ms])) =
+      { ms := ms, dflt := (newStandardTranscoder (bridgeOptions opts)).dflt } ∧
+    newStandardTranscoder (bridgeOptions (opts ++ [.withDefaultMarshaler m])) =
+      { ms := (newStandardTranscoder (bridgeOptions opts)).ms, dflt := m } ∧
+    newStandardTranscoder (bridgeOptions []) = { ms := [jsonMarshaler], dflt := jsonMarshaler } := by
+  refine ⟨?_, ?_, rfl⟩ <;> simp [bridgeOptions, List.foldl_append, applyBridgeOpt, newStandardTranscoder]
+
+/-- Negative witness for the seeded variant C13-m6 (WebSocket Opts literal without `Transcoder`): with a
+    binary default marshaler a request without Content-Type is bound to the binary codec over HTTP but
+    to JSON over WebSocket — wrong frame kind out, wrong frame-type check in. -/
+theorem C13_entry_points_m6_fails :
+    let bin : Marshaler := { mime := binMime, binary := true, stream := true }
+    let opts := [BridgeOpt.withDefaultMarshaler bin]
+    let r : BindReq := { accept := [], contentType := [], cs := true, ss := true }
+    (entryBind (wiredTranscoderM6 opts) .http r).toOption.map (·.respM.binary) = some true ∧
+    (entryBind (wiredTranscoderM6 opts) .ws r).toOption.map (·.respM.binary) = some false ∧
+    (entryBind (wiredTranscoder opts) .ws r).toOption.map (·.respM.binary) = some true := by
+  decide
